@@ -318,7 +318,8 @@ func Rename(p *Program, r *rand.Rand) *Program {
 				if n == "" {
 					n = "_"
 				}
-				if goKeywords[n] {
+				if goKeywords[n] || n == "new" || n == "panic" {
+					// the template body itself calls new(...) / panic(...)
 					continue
 				}
 				if n != "_" && seen[n] {
